@@ -329,7 +329,10 @@ Section Machine.
     | [] => Some s
     | (a, p) :: rest =>
         if negb (parse_ok a) then None
-        else do_additions (unpack_if_me (set_acc s a (mkAccount p SActive (cur_key s) [(r, p)])) a) r rest
+        else
+          (* F35 repair: a re-added account keeps its earlier permission history *)
+          let hist := match mget a (accounts s) with Some x => a_hist x ++ [(r, p)] | None => [(r, p)] end in
+          do_additions (unpack_if_me (set_acc s a (mkAccount p SActive (cur_key s) hist)) a) r rest
     end.
   Definition apply_accounts_add (s : state) (au : acct) (r : rid) (l : list (acct * perm)) : option state :=
     if v && negb (can_manage (perm_of s au) && validate_additions s (perm_of s au) l) then None
